@@ -417,7 +417,8 @@ FwdConnOK == \A c \in fw.conns : c.host = FEndpoints[c.key].host /\ c.port = FEn
 \* request sequences for ONE live handler (executed in order by the harness): all sequences of <= FSeqLen requests
 FSeqLen == 4
 FwdSeqs == UNION {[1..m -> FReqKeys] : m \in 1..FSeqLen}
-FwdSeqInit == /\ Init
+\* (the vectors of part 2 and the sequences are printed by one TLC run)
+FwdSeqInit == /\ FwdInit
               /\ PrintT("FEND " \o ToJson(FEndpoints))
               /\ \A q \in FwdSeqs : PrintT("FSEQ " \o ToJson(q))
               /\ PrintT("FQSUM " \o ToJson([seqs |-> Cardinality(FwdSeqs)]))
